@@ -130,3 +130,22 @@ def ev_exec(i, q, r, sid, ao):
 
 def beh_key(b):
     return json.dumps(b, sort_keys=True)
+
+
+def binding_selfcheck(ctx, traces, corrupt, what):
+    """Rule 4: an accepted real trace with ONE recorded field corrupted must be rejected by TLC.
+    corrupt(trace) returns a corrupted deep copy or None if the trace has nothing to corrupt."""
+    import copy
+    import os
+    for t in traces:
+        c = corrupt(copy.deepcopy(t))
+        if c is None:
+            continue
+        path = os.path.join(ctx.work, "selfcheck.ndjson")
+        vlib.write_ndjson(path, c)
+        ok, info = vlib.tlc_trace(ctx, "CachePlugin_Trace", "CachePlugin_Trace.cfg", path, name="selfcheck")
+        if ok:
+            raise vlib.Infra("trace validation is vacuous: a trace with a corrupted %s was accepted" % what)
+        ctx.cov["binding_selfcheck"] = "accepted real trace with corrupted %s is rejected by TLC" % what
+        return
+    raise vlib.Infra("binding self-check: no trace with a %s to corrupt" % what)
